@@ -53,6 +53,14 @@ def programs(ctx):
             p.alloc(1, [5, 6], True)
             p.alloc(1, [5, 6, 5], False)
         progs.append(p.d())
+    # shares with nine decimals in a zero-decimal currency (where the pinned decimalfp mis-divides, DESIGN 5.2)
+    p = Prog('c06-dep')
+    p.make(1, 'Money', F(41), 'Z0')
+    p.num(2, F(135), 'int')
+    p.num(3, F(377), 'int')
+    p.alloc(1, [2, 3], True)
+    p.alloc(1, [2, 3], False)
+    progs.append(p.d())
     # random longer ratio lists
     nrand = 120 if quick else 2500
     for j in range(nrand):
